@@ -142,7 +142,7 @@ def tree_pipeline(work, prop, stages, invariants, seed, model_invs=None, model_p
         out.kinds.add(s["kind"])
         for smp in s.get("samples", [])[:1]:
             if len(out.samples) < 8:
-                out.samples.append({"stage": st.label(), "history": smp})
+                out.samples.append({"stage": st.label(), "history": smp if len(smp) <= 600 else smp[:600] + " ... (%d characters)" % len(smp)})
         if s.get("panics"):
             out.notes.append("%s: %d call(s) panicked" % (st.label(), s["panics"]))
         if st.uname == "d2":
